@@ -266,6 +266,7 @@ let run_case (x : sx) : Stdlib.String.t =
              Buffer.add_string b "\tP=ok";
              if not (wf_node t) then Buffer.add_string b "\tWF=0";
              if not (acc_clean t) then Buffer.add_string b "\tWF=0";
+             if not (ctext_ok t) then Buffer.add_string b "\tWF=0";
              (if cfg.cfg_accessor then
                 match parse_path { cfg with cfg_accessor = false } parse_float regex_ok path with
                 | ParseOk t0 -> if erase t <> t0 then Buffer.add_string b "\tWF=0"
@@ -285,6 +286,13 @@ let run_case (x : sx) : Stdlib.String.t =
                 let srend = if sr = [] then "fail" else "ok:[" ^ Stdlib.String.concat "," (List.map render_res sr) ^ "]" in
                 let mrend = match o with OOk _ -> r | OErr _ -> "fail" | OPanic _ -> r in
                 if srend <> mrend then Buffer.add_string b (Printf.sprintf "\tS%d=%s" i srend));
+               (match o with
+                | OPanic _ -> ()
+                | _ ->
+                    let se = spec_err regex_match t doc in
+                    let me = match o with OErr e -> Some e | _ -> None in
+                    if se <> me then
+                      Buffer.add_string b (Printf.sprintf "\tS%d=err:%s" i (match se with Some e -> render_rerr e | None -> "none")));
                (if filters_call_free t && (match o with OPanic _ -> false | _ -> true) then
                   let sc = spec_calls regex_match t doc in
                   if sc <> st'.calls then
